@@ -326,7 +326,8 @@ type blockAST struct {
 	Dirs []dirAST
 }
 
-var tokAlpha = []string{"a", "b c", "q\"q", "", "x{$V}y", "multi\nline", "e\\\nf", "{$}{$V}"}
+// (W is always set to the text {$V}: a value in one spelling that looks like a reference in the other)
+var tokAlpha = []string{"a", "b c", "q\"q", "", "x{$V}y", "multi\nline", "e\\\nf", "{$}{$V}", "{%W%}"}
 
 func needsQuote(t string) bool {
 	return t == "" || strings.ContainsAny(t, " \t\n\"#") || t == "{" || t == "}"
@@ -480,7 +481,38 @@ func (l layout) render(blocks []blockAST, split, mode int) (main string, files m
 	return
 }
 
-func expand(t string) string { return strings.ReplaceAll(t, "{$V}", os.Getenv("V")) }
+// expand is the reference for environment references: one pass from left to right over both spellings ({$NAME} and
+// {%NAME%}); a value is inserted as it is (it is not searched for references again), an empty name is ordinary text.
+func expand(t string) string {
+	var b strings.Builder
+	for {
+		i1, i2 := strings.Index(t, "{$"), strings.Index(t, "{%")
+		i, end := i1, "}"
+		if i1 < 0 || (i2 >= 0 && i2 < i1) {
+			i, end = i2, "%}"
+		}
+		if i < 0 {
+			break
+		}
+		j := strings.Index(t[i+2:], end)
+		if j < 0 {
+			// (not a reference in this spelling; the alphabet has no such token)
+			b.WriteString(t[:i+2])
+			t = t[i+2:]
+			continue
+		}
+		name := t[i+2 : i+2+j]
+		if name == "" {
+			b.WriteString(t[:i+2+j+len(end)])
+		} else {
+			b.WriteString(t[:i])
+			b.WriteString(os.Getenv(name))
+		}
+		t = t[i+2+j+len(end):]
+	}
+	b.WriteString(t)
+	return b.String()
+}
 
 type rtCase struct {
 	Main   string            `json:"casketfile"`
@@ -930,7 +962,7 @@ func main() {
 	rep := kit.NewReport("C10", "exploration",
 		"(a) every string of <=6 (thorough 7) symbols over a 14-symbol macro-alphabet and every sequence of <=5 (6) lines over a 14-line alphabet with import targets that are acyclic, self-importing and mutually importing, x 3 environments (and, one symbol shorter, 2 more: a value naming itself, a value with a line break), each parsed under a watchdog; (b) every AST of a menu (~1k) x 288 layouts x every single-directive split into an import file or snippet x 2 environments, printed, parsed and compared; (c) every pair of directive lines of <=3 arguments over 4 argument shapes under 2 environment values, read back through a Dispenser as the setup code of a directive does, and two lines of one directive placed inline, in a snippet or in an imported file (8 placements) walked with Next and with NextLine; distinct_nontrivial = outcome classes (error kinds, block counts, round-trip shapes)")
 	if !rep.IsWorker() {
-		rep.Assume("environment values never contain placeholder syntax; glob imports limited to one pattern; import targets live next to the Casketfile")
+		rep.Assume("glob imports limited to one pattern; import targets live next to the Casketfile")
 		rep.RunWorkers(16)
 		rep.Finish()
 	}
@@ -938,6 +970,7 @@ func main() {
 		confirmMode(f)
 	}
 	runtime.GOMAXPROCS(2) // (a worker parses one text at a time; 16 workers run side by side)
+	os.Setenv("W", "{$V}")
 	dir = kit.TempDir("c10")
 	if d, err := os.MkdirTemp("/dev/shm", "verif-c10-"); err == nil {
 		// the import files are rewritten a million times: keep them in memory when the system offers it
